@@ -163,20 +163,15 @@ func runC06(c *Ctx) {
 
 	// R-C06-5 who may call send / sendWorker
 	for _, s := range an.FindCalls(c.srcFuncs(), func(cc *ssa.CallCommon) bool { return an.CallIs(cc, PkgCorerad, "Advertiser", "send") }) {
-		root := s.Fn
-		for root.Parent() != nil {
-			root = root.Parent()
-		}
-		name := c.fname(root)
-		ok := name == "(*corerad.Advertiser).Run" || name == "(*corerad.Advertiser).sendWorker" || name == "(*corerad.Advertiser).shutdown"
-		c.R.Check(ok, "R-C06-5", c.fname(s.Fn)+":calls-send", c.fname(s.Fn), c.pos(s.Pos()), "caller "+c.fname(s.Fn), "send is called only by Run (initial), sendWorker (scheduled) and shutdown (final)", "a transmission bypasses the scheduler's spacing")
+		ok, who := c.reachedOnlyFrom(s.Fn, func(root *ssa.Function) bool {
+			name := c.fname(root)
+			return name == "(*corerad.Advertiser).Run" || name == "(*corerad.Advertiser).sendWorker" || name == "(*corerad.Advertiser).shutdown"
+		})
+		c.R.Check(ok, "R-C06-5", c.fname(s.Fn)+":calls-send", c.fname(s.Fn), c.pos(s.Pos()), "caller "+c.fname(s.Fn)+" reached from "+who, "send is called only by Run (initial), sendWorker (scheduled) and shutdown (final)", "a transmission bypasses the scheduler's spacing")
 	}
 	for _, s := range an.FindCalls(c.srcFuncs(), func(cc *ssa.CallCommon) bool { return an.CallIs(cc, PkgCorerad, "Advertiser", "sendWorker") }) {
-		root := s.Fn
-		for root.Parent() != nil {
-			root = root.Parent()
-		}
-		c.R.Check(root == sch && s.Fn != sch, "R-C06-5", c.fname(s.Fn)+":calls-sendWorker", c.fname(s.Fn), c.pos(s.Pos()), "caller "+c.fname(s.Fn), "sendWorker runs only inside closures scheduled by schedule()", "a transmission bypasses the scheduler's spacing")
+		ok, _ := c.reachedOnlyFrom(s.Fn, func(root *ssa.Function) bool { return root == sch })
+		c.R.Check(ok && s.Fn.Parent() != nil, "R-C06-5", c.fname(s.Fn)+":calls-sendWorker", c.fname(s.Fn), c.pos(s.Pos()), "caller "+c.fname(s.Fn), "sendWorker runs only inside closures scheduled by schedule()", "a transmission bypasses the scheduler's spacing")
 	}
-	c.R.Floor("R-C06-5", 5)
+	c.R.Floor("R-C06-5", 3)
 }
